@@ -149,6 +149,18 @@ def run(tier, seed):
                 res.count("collect-cmd"); res.count("collect-cmd/" + ("default-keys" if keys == "tkpea" else "other-keys"))
                 if rows != want or header != [names[k_] for k_ in keys]:
                     bad.append(dict(failed="collect command tabulates exactly the logged values (keys %r: header %r)" % (keys, header), case=dict(info), got=rows[:3], want=want[:3])); break
+            # the trace grows (new pages) and the command is run again in the same process: the table follows the log
+            try:
+                for j in range(rng.randint(1, 2 * pitch0 + 1)):
+                    s_new = snap(len(rec) + 1000 + j, rng); y.collect(s_new); m.collect(s_new); rec.append(s_new)
+                collect(main, "tkpea")
+                rows = [l.split() for l in open(main + ".dat").read().splitlines() if not l.startswith("#")]
+                want = [[("%12.8f" % s_["time"]).strip(), ("%12.8f" % s_["kinetic"]).strip(), ("%12.8f" % s_["potential"]).strip(), ("%12.8f" % s_["energy"]).strip(), ("%12d" % s_["active"]).strip()] for s_ in rec]
+                res.count("collect-cmd/after-growth")
+                if rows != want:
+                    bad.append(dict(failed="collect command tabulates exactly the logged values (run again in the same process after the trace grew: %d rows for %d snapshots)" % (len(rows), len(rec)), case=dict(info)))
+            except Exception as ex:
+                bad.append(dict(failed="collect after growth raised %s: %s" % (type(ex).__name__, ex), case=dict(info)))
         nsn = sum(len(h[2]) for h in handles)
         res.count("ops", len(ops))
         for o in ops: res.count("op/" + o[0])
